@@ -147,6 +147,8 @@ def emit_reload(R):
     (p,) = X.cut(CPP, r'void\s+DynamicConstructorDataGlobal::reloadPoints\s*\(\s*std::function<int\(int\)>\s+getNumPoints\s*\)', ct)
     b = p.body
     b = R.sub("R6-range-for-list", r'for\s*\(\s*auto\s*&\s*(\w+)\s*:\s*tensors\s*\)\s*\{', r'for (TensorData *\1 = self->tensors.bb.next; \1 != NULL; \1 = \1->next){', b)
+    # a loop variable declared by value iterates over COPIES of the elements: what the body writes is lost
+    b = R.sub("R6-range-for-list", r'for\s*\(\s*auto\s+(\w+)\s*:\s*tensors\s*\)\s*\{', r'for (TensorData *\1_n = self->tensors.bb.next; \1_n != NULL; \1_n = \1_n->next){ TensorData \1_copy = *\1_n; TensorData *\1 = &\1_copy;', b)
     b = R.sub("R6-range-for-list", r'for\s*\(\s*auto\s+const\s*&\s*(\w+)\s*:\s*data\s*\)\s*\{', r'for (const NodeData *\1 = self->data.bb.next; \1 != NULL; \1 = \1->next){', b)
     b = R.sub("R5g-dummy-set", r'MultiIndexSet\s+dummy_set\(\s*num_dimensions\s*,\s*std::vector<int>\(\s*t\.tensor\s*\)\s*\)\s*;', '', b)
     b = R.sub("R5g-generate", r'\bt\.points\s*=\s*MultiIndexManipulations::generateNestedPoints\(\s*dummy_set\s*,\s*getNumPoints\s*\)\s*;', 't->npoints = tsg_generateNestedPoints(t);', b)
